@@ -15,7 +15,11 @@ Decided here are structural clauses that are genuine necessary conditions of it 
            ladder, or the rows of a constant table walked by a range-for (values resolved through parameters, locals
            set once and table fields).
   R-C18-4  PseudoURL::getValue: last duplicate wins (ascending scan of the whole list without exit on a match,
-           every match overwrites the record), no match throws; hasParam is any-match.
+           every match overwrites the record), no match throws; hasParam is any-match.  Decided together with the
+           constructor's store scheme (R-C18-9): if every append is made only when no entry of that name exists and
+           the entry is otherwise overwritten in place with the token's value, the list holds one entry per name and
+           a first-match lookup is accepted; if some token form still appends unconditionally, a first-match
+           lookup is reported naming that form.
   R-C18-5  removeArgs shift loop and count update, ArgumentList constructor range, ArgumentList::remove erase
            count and position, parseAndRemove advances iff nothing was consumed.
   R-C18-6  longestBeginningMatch bounds std::mismatch by the shorter length; beginsWith compares the match
@@ -31,6 +35,13 @@ Decided here are structural clauses that are genuine necessary conditions of it 
            positive example in witness/c18_param_order.cpp.
   R-C18-10 a rung that prints <integer>.<integer> prints a fraction that fits its digits: interval of the fraction
            expression over the unsigned input with the constant unit of the call site (positive example in the witness).
+
+  R-C18-11 FileName normal form: every function that writes the private string is a constructor / helper that strips all
+           trailing separators after storing its input (loop or find_last_not_of form), or only copies another
+           FileName's string; appending a separator to the private string outside such a function is reported.
+  R-C18-12 purity: no function reachable from the anchored helpers writes a non-const object with static storage
+           duration (function-local static, namespace scope); thread_local / atomic / mutex state is not decided;
+           positive example in witness/c18_param_order.cpp.
 
 Helpers: file-local / private helpers are followed with parameters mapped (FileName position helpers are
 summarised into the typestate, a prefix-length index loop stands for std::mismatch, a lookup helper that scans
@@ -228,6 +239,10 @@ class FnX(Normalizer):
                 continue
             if pk == 'CallExpr' and tu.sd(p).get('q') in ('std::move', 'std::forward'):
                 continue        # handing the value on; the local is not used as a token source afterwards
+            if pk == 'CallExpr' and tu.sd(p).get('q') in ('std::make_pair', 'std::make_tuple'):
+                continue        # copies an lvalue argument
+            if pk == 'LambdaExpr':
+                continue        # capture: the uses inside the lambda body are visited like any other use
             v['escaped'] = True
 
     def var_of(self, e):
@@ -3658,7 +3673,210 @@ def classify_val(ms, e, pos):
     return 'T'
 
 
-def lookup_helper(tu, hf):
+# ====================================================================================================
+#  how the constructor stores a parameter: append always / update an existing entry of the same name in place
+# ====================================================================================================
+def _is_empty_string(tu, x, e):
+    e = x.peel(e)
+    if e is None:
+        return False
+    for _ in range(6):
+        k = e.get('kind')
+        if k == 'StringLiteral':
+            return e.get('value') == '""'
+        if k in ('CXXConstructExpr', 'CXXTemporaryObjectExpr', 'CXXFunctionalCastExpr'):
+            ks = [y for y in tu.kids(e) if y.get('kind') != 'CXXDefaultArgExpr']
+            if not ks:
+                return True
+            if len(ks) == 1:
+                e = x.peel(ks[0])
+                if e is None:
+                    return False
+                continue
+        return False
+    return False
+
+
+def _pair_parts(tu, x, call):
+    """(name expr, value expr) of the pair appended by push_back(make_pair(a, b)) / push_back(pair(a, b)) / emplace_back(a, b)"""
+    s, obj, args = tu.call_parts(call)
+    nm = last_name(s.get('q'))
+    if nm == 'emplace_back' and len(args) == 2:
+        return args[0], args[1]
+    if len(args) != 1:
+        return None
+    e = x.peel(args[0])
+    for _ in range(6):
+        if e is None:
+            return None
+        k = e.get('kind')
+        if k == 'CallExpr' and tu.sd(e).get('q') == 'std::make_pair' and len(tu.kids(e)) == 3:
+            return tu.kids(e)[1], tu.kids(e)[2]
+        if k in ('CXXConstructExpr', 'CXXTemporaryObjectExpr', 'CXXFunctionalCastExpr'):
+            ks = [y for y in tu.kids(e) if y.get('kind') != 'CXXDefaultArgExpr']
+            if len(ks) == 2 and 'pair' in (tu.sd(e).get('q') or tu.sd(e).get('ct') or ''):
+                return ks[0], ks[1]
+            if len(ks) == 1:
+                e = x.peel(ks[0])
+                continue
+        return None
+    return None
+
+
+def store_scheme(tu, f, x, sites, fq):
+    """Can the list hold two entries with the same name after the constructor?
+    returns dict(dup='yes'|'no'|'unknown', unguarded=[append nodes], updates=[(node, pos)], problems=[(kind, msg, node)],
+                 why=text)"""
+    g = x.g
+    res = {'dup': 'yes', 'unguarded': [], 'updates': [], 'problems': [], 'why': 'every token is appended', 'und': []}
+    # ---- searches: auto it = std::find_if(list.begin(), list.end(), [&](const pair &p) { return p.first == NAME; })
+    searches = {}
+    for d, v in x.vars.items():
+        init = x.single_init(d)
+        e = x.peel(init) if init is not None else None
+        if e is None or e.get('kind') != 'CallExpr' or tu.sd(e).get('q') != 'std::find_if':
+            continue
+        args = tu.kids(e)[1:]
+        if len(args) != 3:
+            continue
+        okr = all(any(y.get('kind') == 'MemberExpr' and tu.sd(y).get('q') == fq for y in tu.walk(a)) for a in args[:2])
+        lam = None
+        for y in tu.walk(args[2]):
+            if y.get('kind') == 'LambdaExpr':
+                lam = y
+        namevar = None
+        if lam is not None:
+            op = tu.functions.get(tu.sd(lam).get('op'))
+            body = tu.body(op) if op is not None else None
+            rets = [y for y in tu.walk(body) if y.get('kind') == 'ReturnStmt'] if body is not None else []
+            if len(rets) == 1 and tu.kids(rets[0]):
+                c = tu.strip(tu.kids(rets[0])[0], casts=True)
+                if c is not None and c.get('kind') == 'CXXOperatorCallExpr' and tu.sd(c).get('q') == 'std::operator==':
+                    ks = [tu.strip(y, casts=True) for y in tu.kids(c)[1:]]
+                    fi = [y for y in ks if y.get('kind') == 'MemberExpr' and y.get('name') == 'first']
+                    ot = [y for y in ks if y.get('kind') == 'DeclRefExpr']
+                    if len(fi) == 1 and len(ot) == 1:
+                        namevar = ot[0].get('referencedDecl', {}).get('id')
+        if okr and namevar is not None:
+            searches[d] = {'namevar': namevar, 'call': e, 'name': v['name']}
+        else:
+            res['und'].append('cannot read the search `%s`' % tu.show(e))
+
+    def found_guard(pos):
+        """[(search var, found?)] for the dominating tests `it != list.end()` / `it == list.end()`"""
+        out = []
+        for cn, truth, blk in x.guards(pos):
+            c = tu.strip(cn, casts=True)
+            neg = False
+            while c is not None and c.get('kind') == 'UnaryOperator' and c.get('opcode') == '!':
+                neg = not neg
+                c = tu.strip(tu.kids(c)[0], casts=True)
+            if c is None or c.get('kind') != 'CXXOperatorCallExpr' or last_name(tu.sd(c).get('q')) not in ('operator!=', 'operator=='):
+                continue
+            ks = tu.kids(c)[1:]
+            sv = [x.var_of(y)[0] for y in ks if x.var_of(y)[0] in searches]
+            isend = any(y.get('kind') == 'CXXMemberCallExpr' and last_name(tu.sd(y).get('q')) in ('end', 'cend') for k2 in ks for y in tu.walk(k2))
+            if len(sv) == 1 and isend:
+                ne = last_name(tu.sd(c).get('q')) == 'operator!='
+                out.append((sv[0], (ne == truth) != neg))
+        return out
+
+    # ---- in-place updates: it->second = V  under `found`
+    for b, i, n in g.stmts():
+        if n.get('kind') != 'CXXOperatorCallExpr' or last_name(tu.sd(n).get('q')) != 'operator=' or \
+                not (tu.sd(n).get('q') or '').startswith('std::basic_string<'):
+            continue
+        lhs = tu.strip(tu.kids(n)[1], casts=True)
+        if lhs is None or lhs.get('kind') != 'MemberExpr' or lhs.get('name') not in ('first', 'second') or \
+                not (tu.sd(lhs).get('q') or '').startswith('std::pair<'):
+            continue
+        base = tu.strip(tu.kids(lhs)[0], casts=True)
+        sv = None
+        for y in tu.walk(base) if base is not None else ():
+            if y.get('kind') == 'DeclRefExpr' and y.get('referencedDecl', {}).get('id') in searches:
+                sv = y['referencedDecl']['id']
+        pos = (b.id, i)
+        if sv is None or lhs.get('name') != 'second' or (sv, True) not in found_guard(pos):
+            res['und'].append('an entry of the list is modified by `%s`' % tu.show(n))
+            continue
+        res['updates'].append({'node': n, 'pos': pos, 'search': sv, 'value': tu.kids(n)[2]})
+    if not searches and not res['updates'] and not res['und']:
+        res['unguarded'] = [nd for nd, pos in sites]
+        return res
+    if res['und']:
+        res['dup'] = 'unknown'
+        res['why'] = res['und'][0]
+        return res
+    # ---- every append: is it made only when no entry with its own name exists, and paired with an overwrite?
+    guarded = 0
+    for nd, pos in sites:
+        parts = _pair_parts(tu, x, nd)
+        nv = x.var_of(parts[0])[0] if parts is not None else None
+        gs = [(sv, fnd) for sv, fnd in found_guard(pos) if not fnd and searches[sv]['namevar'] == nv and nv is not None]
+        if not gs:
+            res['unguarded'].append(nd)
+            continue
+        # the name / search must still be current at the append
+        sv = gs[0][0]
+        spos = x.pos_of(searches[sv]['call'])
+        if not x.clean(spos, pos, [nv]) or x.vars[nv]['escaped']:
+            res['dup'] = 'unknown'
+            res['why'] = 'the name `%s` may change between the search and the append' % x.vars[nv]['name']
+            return res
+        guarded += 1
+        ups = [u for u in res['updates'] if u['search'] == sv]
+        if not ups:
+            res['problems'].append(('store-once-keeps-first', 'when `%s` finds an entry of the same name nothing is stored: the value of '
+                                    'the earlier occurrence is kept instead of the last' % tu.show(searches[sv]['call']), nd))
+            continue
+        for u in ups:
+            uv, av = x.var_of(u['value'])[0], x.var_of(parts[1])[0]
+            same = (uv is not None and uv == av) or (_is_empty_string(tu, x, u['value']) and _is_empty_string(tu, x, parts[1]))
+            if not same:
+                res['dup'] = 'unknown'
+                res['why'] = 'cannot see that the in-place update `%s` stores the value of the current token' % tu.show(u['node'])
+                return res
+    if res['unguarded']:
+        res['dup'] = 'yes'
+        res['why'] = 'entries are updated in place only for some token forms'
+    else:
+        res['dup'] = 'no'
+        res['why'] = 'every append is made only when no entry of that name exists, otherwise the entry is overwritten in place'
+    return res
+
+
+def url_store_scheme(tu):
+    """store scheme of the PseudoURL constructor (shared by R-C18-4 and R-C18-9)"""
+    fq = URL + '::params'
+    for f in tu.fns(q=URL + '::PseudoURL'):
+        if f['dep'] or tu.cfg(f) is None or f.get('implicit') or f.get('ctor') in ('copy', 'move') or not f.get('params'):
+            continue
+        x = FnX(tu, f)
+        sites = []
+        for b, i, n in x.g.stmts():
+            if n.get('kind') == 'CXXMemberCallExpr' and last_name(tu.sd(n).get('q')) in VEC_APPEND:
+                s, obj, args = tu.call_parts(n)
+                if obj is not None and tu.sd(tu.strip(obj, casts=True)).get('q') == fq:
+                    sites.append((n, (b.id, i)))
+        sch = store_scheme(tu, f, x, sites, fq)
+        sch['x'] = x
+        sch['f'] = f
+        return sch
+    return {'dup': 'unknown', 'why': 'constructor not found', 'unguarded': [], 'updates': [], 'problems': []}
+
+
+def describe_unguarded(tu, sch):
+    """which token form still appends without looking for an existing entry"""
+    x = sch.get('x')
+    out = []
+    for nd in sch.get('unguarded', []):
+        parts = _pair_parts(tu, x, nd) if x is not None else None
+        form = 'a bare name (empty value)' if parts is not None and _is_empty_string(tu, x, parts[1]) else 'name=value'
+        out.append('`%s` at %s, i.e. %s' % (tu.show(nd), tu.loc(nd), form))
+    return '; '.join(out)
+
+
+def lookup_helper(tu, hf, dup='yes'):
     """Does the helper hf(list, name) return a pointer to the LAST element of the list whose name matches, or null?
     Recognised shape: scan from the back (index size..1, element list[i-1]) that returns the address of the element at
     the first hit, and null behind the loop.   ('ok', text) | ('bad', kind, message, loc) | ('und', why)"""
@@ -3671,12 +3889,14 @@ def lookup_helper(tu, hf):
     loc = tu.loc(ms.match['cond'])
     if ms.match['field'] != 'first':
         return ('bad', 'match-field', 'the argument is compared with `.%s` of the parameter instead of its name `.first`' % ms.match['field'], loc)
-    if ms.direction == 'asc' and ms.exits_on_match():
-        return ('bad', 'first-match-wins', 'the scan from the front is left on the first match: for a repeated parameter the first '
-                'value is found instead of the last', loc)
+    if ms.direction == 'asc' and ms.exits_on_match() and dup == 'yes':
+        return ('bad', 'first-match-wins', 'the scan from the front is left on the first match although the constructor can store two '
+                'entries with the same name: for a repeated parameter the first value is found instead of the last', loc)
+    if ms.direction == 'asc' and ms.exits_on_match() and dup == 'unknown':
+        return ('und', 'the scan returns the first match; whether two entries of one name can be stored is not decided')
     if ms.direction == 'desc-partial':
         return ('bad', 'scan-range', ms.why, loc)
-    if ms.direction != 'desc':
+    if ms.direction != 'desc' and not (ms.direction == 'asc' and ms.exits_on_match() and dup == 'no'):
         return ('und', 'only a scan from the back is recognised inside a lookup helper (found: %s)' % ms.direction)
     g = x.g
     # on a match: return &list[matched index] at once
@@ -3744,7 +3964,7 @@ def run_assuming(tu, x, atom_is, bounds_val):
     return recs, bounds
 
 
-def lookup_via_helper(ctx, tu, f, R, inst, key, want):
+def lookup_via_helper(ctx, tu, f, R, inst, key, want, dup='yes'):
     """getValue / hasParam written on top of a lookup helper; want: 'value' or 'bool'.  Returns True if handled."""
     from rkstatic.x_expr import decide_bool
     x = FnX(tu, f)
@@ -3762,7 +3982,7 @@ def lookup_via_helper(ctx, tu, f, R, inst, key, want):
     if len(cands) != 1:
         return False
     call, hf, cpos = cands[0]
-    verdict = lookup_helper(tu, hf)
+    verdict = lookup_helper(tu, hf, dup)
     loc = tu.loc(call)
     hname = fn_name(hf)
     if verdict[0] == 'bad':
@@ -3839,7 +4059,8 @@ def lookup_via_helper(ctx, tu, f, R, inst, key, want):
     return True
 
 
-def check_url_lookup(ctx, tu):
+def check_url_lookup(ctx, tu, sch=None):
+    sch = sch or url_store_scheme(tu)
     R = 'R-C18-4'
     ctx.describe(R, 'PseudoURL::getValue returns the value of the last parameter with the given name (ascending scan, no exit on a '
                     'match) and throws when there is none; hasParam is true iff some parameter matches')
@@ -3852,7 +4073,7 @@ def check_url_lookup(ctx, tu):
         inst = '%s %s' % (fname, f['fty'])
         key = '%s|%s|%s|' % (R, file, fname)
         ms = MatchScan(tu, f)
-        if ms.match is None and lookup_via_helper(ctx, tu, f, R, inst, key, 'value'):
+        if ms.match is None and lookup_via_helper(ctx, tu, f, R, inst, key, 'value', sch['dup']):
             continue
         if ms.match is None or ms.direction is None:
             ctx.undecided(R, inst, ms.why or 'cannot find the scan', tu.fn_loc(f))
@@ -3865,8 +4086,39 @@ def check_url_lookup(ctx, tu):
         if ms.direction == 'asc-partial':
             bad.append(('scan-range', ms.why))
         if ms.exits_on_match():
-            bad.append(('first-match-wins', 'the ascending scan is left on the first match: for a repeated parameter the first value is '
-                        'returned instead of the last'))
+            if sch['dup'] == 'yes':
+                ung = describe_unguarded(tu, sch)
+                mixed = bool(sch.get('updates'))
+                bad.append(('first-match-wins', 'the ascending scan is left on the first match, but the constructor can %sstore two entries '
+                            'with the same name (%s): for a repeated parameter the first value is returned instead of the last'
+                            % ('still ' if mixed else '', ('%s: it still appends %s without looking for an existing entry'
+                                                         % (sch['why'], ung)) if mixed else sch['why'])))
+            elif sch['dup'] == 'unknown':
+                und.append('the scan returns the first match; whether the constructor can store two entries of one name is not decided (%s)'
+                           % sch.get('why'))
+            else:
+                # at most one entry per name: the first match is the only one; it must be returned, and absence must throw
+                recs = explore_match(ms, None)
+                for matched, val2, kind2, node2 in recs:
+                    if kind2 == 'throw' and matched == 'Y':
+                        bad.append(('throws-when-found', 'the exception at %s can be reached although a parameter matched' % tu.loc(node2)))
+                    elif kind2 == 'return' and matched == 'N':
+                        bad.append(('no-throw', 'the function can return at %s although no parameter matched: it must throw' % tu.loc(node2)))
+                    elif kind2 == 'return':
+                        e = x.peel(tu.kids(node2)[0]) if tu.kids(node2) else None
+                        okr = False
+                        if e is not None and e.get('kind') == 'MemberExpr' and e.get('name') in ('first', 'second'):
+                            base = tu.strip(tu.kids(e)[0], casts=True)
+                            el = tu.strip(ms.match['elem'], casts=True) if ms.match['elem'] is not None else None
+                            if base is not None and el is not None and tu.show(base) == tu.show(el) and \
+                                    (x.var_of(base)[0] == x.var_of(el)[0]):
+                                okr = True
+                                if e['name'] != 'second':
+                                    bad.append(('returns-name', 'the name `.first` of the matching parameter is returned instead of its value `.second`'))
+                        if not okr:
+                            und.append('cannot relate the returned `%s` to the matching element' % (tu.show(e) if e else '?'))
+                if not any(r[2] == 'throw' for r in recs):
+                    bad.append(('no-throw', 'no exception is thrown when the parameter is absent'))
         # the local that remembers the match: defined inside the loop on the match edge
         tracked = None
         tdefs = []
@@ -3955,8 +4207,12 @@ def check_url_lookup(ctx, tu):
             for u in sorted(set(und)):
                 ctx.undecided(R, inst, u, loc)
         else:
-            ctx.ok(R, inst, 'ascending scan of the whole list, every match overwrites the record, no exit on a match; '
-                   'absent -> throw; returns the value of the recorded element', loc)
+            if ms.exits_on_match():
+                ctx.ok(R, inst, 'the constructor keeps at most one entry per name (%s), so the first match is the last one; '
+                       'absent -> throw; returns the value of the matching element' % sch['why'], loc)
+            else:
+                ctx.ok(R, inst, 'ascending scan of the whole list, every match overwrites the record, no exit on a match; '
+                       'absent -> throw; returns the value of the recorded element', loc)
 
     for f in tu.fns(q=URL + '::hasParam'):
         if f['dep'] or tu.cfg(f) is None:
@@ -3966,7 +4222,7 @@ def check_url_lookup(ctx, tu):
         inst = '%s %s' % (fname, f['fty'])
         key = '%s|%s|%s|' % (R, file, fname)
         ms = MatchScan(tu, f)
-        if ms.match is None and lookup_via_helper(ctx, tu, f, R, inst, key, 'bool'):
+        if ms.match is None and lookup_via_helper(ctx, tu, f, R, inst, key, 'bool', sch['dup']):
             continue
         if ms.match is None or ms.direction is None:
             ctx.undecided(R, inst, ms.why or 'cannot find the scan', tu.fn_loc(f))
@@ -4281,7 +4537,8 @@ def order_scan(tu, field_q):
     return out
 
 
-def check_param_order(ctx, tu, tu_w):
+def check_param_order(ctx, tu, tu_w, sch=None):
+    sch = sch or url_store_scheme(tu)
     R = 'R-C18-9'
     ctx.describe(R, 'the name=value list keeps URL order: PseudoURL::params is only appended to (once per token, tokens 1..n in '
                     'ascending order, token 0 is the file name) and is never handed to an operation that reorders or overwrites it')
@@ -4346,6 +4603,9 @@ def check_param_order(ctx, tu, tu_w):
         site_blocks = {}
         for nd, pos in sites:
             site_blocks[pos[0]] = site_blocks.get(pos[0], 0) + 1
+        for u in sch.get('updates', []):       # an in-place update of the entry with the same name also stores the token
+            if sch.get('f') is f or (sch.get('f') or {}).get('id') == f['id']:
+                site_blocks[u['pos'][0]] = site_blocks.get(u['pos'][0], 0) + 1
         counts = set()
         start = g.blocks[lp.header].succ[0]
         stack = [(start, 0, frozenset())]
@@ -4362,8 +4622,12 @@ def check_param_order(ctx, tu, tu_w):
                 elif s_ in lp.body and s_ not in seen:
                     stack.append((s_, c, seen | {b}))
         if counts != {1}:
-            bad.append(('params-per-token', 'a token yields %s parameters on some path through the loop, expected exactly 1'
-                        % sorted(counts)))
+            bad.append(('params-per-token', 'a token is stored (appended, or written over the entry of the same name) %s times on some '
+                        'path through the loop, expected exactly once' % sorted(counts)))
+        for kind_, msg_, nd_ in sch.get('problems', []):
+            bad.append((kind_, msg_))
+        if sch['dup'] == 'unknown':
+            und.append('how the constructor stores repeated names is not decided: %s' % sch.get('why'))
         if lp.step != 1 or not lp.ascending_test:
             bad.append(('token-order', 'the tokens are not walked in ascending order (step %s): the URL order of the parameters is lost' % lp.step))
         # tokens vector: the loop bound is size(tokens); token 0 is the file name
@@ -4396,7 +4660,377 @@ def check_param_order(ctx, tu, tu_w):
             for u in und:
                 ctx.undecided(R, inst, u, loc)
         else:
-            ctx.ok(R, inst, 'ascending loop over tokens [%s, %s), one append per token' % (lp.init.show(), lp.bound_excl.show()), loc)
+            ctx.ok(R, inst, 'ascending loop over tokens [%s, %s), one store per token; %s' % (lp.init.show(), lp.bound_excl.show(), sch['why']), loc)
+    return n
+
+
+# ====================================================================================================
+#  R-C18-12  the helpers are pure functions of their arguments: no mutable object with static storage duration
+# ====================================================================================================
+SYNC_TYPES = ('atomic', 'mutex', 'once_flag', 'condition_variable')
+
+
+def reachable_fns(tu, roots):
+    out, work = [], list(roots)
+    seen = set()
+    while work:
+        f = work.pop()
+        if f['id'] in seen or f['dep'] or tu.body(f) is None:
+            continue
+        seen.add(f['id'])
+        out.append(f)
+        for n in tu.walk(tu.body(f)):
+            if n.get('kind') in ('CallExpr', 'CXXMemberCallExpr', 'CXXOperatorCallExpr', 'CXXConstructExpr', 'CXXTemporaryObjectExpr'):
+                cf = tu.callee_fn(n)
+                if cf is not None and cf['id'] not in seen:
+                    work.append(cf)
+    return out
+
+
+def static_uses(tu, fns):
+    """{var decl id: (VarDecl node, [(kind, function, node)])} for the non-const variables with static / thread storage
+    duration that the functions mention; kind: read | write | returned | unknown"""
+    res = {}
+    for f in fns:
+        for n in tu.walk(tu.body(f)):
+            if n.get('kind') != 'DeclRefExpr' or n.get('nonOdrUseReason') == 'unevaluated':
+                continue
+            rd = n.get('referencedDecl', {})
+            if rd.get('kind') != 'VarDecl':
+                continue
+            d = tu.node(rd.get('id'))
+            if d is None or d.get('kind') != 'VarDecl':
+                continue
+            pk = (tu.par(d) or {}).get('kind')
+            static = d.get('storageClass') == 'static' or d.get('tls') or pk in ('NamespaceDecl', 'TranslationUnitDecl', 'LinkageSpecDecl')
+            ty = d.get('type', {})
+            qt = ty.get('desugaredQualType') or ty.get('qualType', '')
+            if not static or d.get('constexpr') or top_const(qt) or qt.endswith('&'):
+                continue
+            # how is it used?
+            cur, p = n, tu.par(n)
+            kind = None
+            for _ in range(12):
+                if p is None:
+                    break
+                k = p.get('kind')
+                if k == 'ParenExpr':
+                    cur, p = p, tu.par(p)
+                    continue
+                if k == 'ImplicitCastExpr':
+                    ck = p.get('castKind')
+                    if ck == 'LValueToRValue':
+                        kind = 'read'
+                        break
+                    if ck == 'NoOp' and 'const' in (tu.sd(p).get('ct') or ''):
+                        # pointer / reference to const from here on
+                        pp = tu.par(p)
+                        kind = 'returned' if pp is not None and pp.get('kind') == 'ReturnStmt' else 'read'
+                        break
+                    cur, p = p, tu.par(p)
+                    continue
+                if k in ('BinaryOperator', 'CompoundAssignOperator') and p.get('opcode', '=').endswith('=') and \
+                        p.get('opcode') not in ('==', '!=', '<=', '>=') and tu.kids(p)[0] is cur:
+                    kind = 'write'
+                    break
+                if k == 'UnaryOperator' and p.get('opcode') in ('++', '--'):
+                    kind = 'write'
+                    break
+                if k == 'ArraySubscriptExpr' and tu.kids(p)[0] is cur:
+                    cur, p = p, tu.par(p)
+                    continue
+                if k == 'ReturnStmt':
+                    kind = 'returned'
+                    break
+                if k in ('CallExpr', 'CXXOperatorCallExpr', 'CXXMemberCallExpr', 'CXXConstructExpr'):
+                    # handed to a callee through a pointer / reference to non-const: the callee may write it
+                    kind = 'write'
+                    break
+                if k == 'MemberExpr':
+                    kind = 'write'       # non-const member function on the object
+                    break
+                if k == 'UnaryOperator' and p.get('opcode') == '&':
+                    cur, p = p, tu.par(p)
+                    continue
+                break
+            res.setdefault(d['id'], (d, []))[1].append((kind or 'unknown', f, n))
+    return res
+
+
+def check_pure(ctx, tu, roots, report=True):
+    """returns list of (verdict, var name, function, node, text)"""
+    R = 'R-C18-12'
+    fns = reachable_fns(tu, roots)
+    out = []
+    for vid, (d, uses) in sorted(static_uses(tu, fns).items(), key=lambda kv: kv[1][0].get('name') or ''):
+        ty = d.get('type', {}).get('qualType', '')
+        kinds = [u[0] for u in uses]
+        wr = [u for u in uses if u[0] == 'write']
+        where = 'function-local static' if d.get('storageClass') == 'static' and (tu.par(d) or {}).get('kind') == 'DeclStmt' else \
+            'thread_local' if d.get('tls') else 'namespace-scope'
+        users = sorted({fn_name(u[1]) for u in uses})
+        if not wr and 'unknown' not in kinds:
+            out.append(('ok', d, uses[0][1], uses[0][2], '%s `%s` is only read' % (where, d.get('name'))))
+        elif d.get('tls') or any(t in ty for t in SYNC_TYPES):
+            out.append(('undecided', d, uses[0][1], uses[0][2], '%s `%s` (%s) is modified by %s: synchronised / per-thread state is not '
+                        'analysed' % (where, d.get('name'), ty, ', '.join(users))))
+        elif wr:
+            f0, n0 = wr[0][1], wr[0][2]
+            handed = 'returned' in kinds or 'read' in kinds
+            out.append(('violation', d, f0, n0, '%s `%s` (%s) is written in %s%s, which the string / number helpers reach: they are no '
+                        'longer pure functions of their arguments -- concurrent calls race on `%s` and can return the text of another '
+                        'call' % (where, d.get('name'), ty, fn_name(f0), ' and then handed out / read' if handed else '', d.get('name'))))
+        else:
+            out.append(('undecided', d, uses[0][1], uses[0][2], 'cannot classify the use of the %s `%s`' % (where, d.get('name'))))
+    return fns, out
+
+
+# ====================================================================================================
+#  R-C18-11  FileName normal form: whoever writes the private string establishes "no trailing separator"
+# ====================================================================================================
+STR_WRITE = {'append', 'push_back', 'assign', 'insert', 'erase', 'resize', 'pop_back', 'clear', 'replace', 'swap'}
+STR_SHRINK = {'resize', 'pop_back', 'erase'}
+
+
+def has_strip(tu, f, tkey):
+    """does f strip every trailing separator from the string designated by tkey?
+       loop form:  while (... T[T.size()-1] == sep / T.back() == sep) T.resize(T.size()-1) / T.pop_back()
+       find form:  last = T.find_last_not_of(sep); T.resize(last + 1) / T.erase(last + 1)
+    returns (True, text) | (False, has_some_shrink)"""
+    x = FnX(tu, f)
+    g = x.g
+    if g is None:
+        return (False, False)
+    SIZE = Poly.atom(('size', tkey))
+    shrinks = []
+    for b, i, n in g.stmts():
+        if n.get('kind') == 'CXXMemberCallExpr' and (tu.sd(n).get('q') or '').startswith('std::basic_string<') and \
+                last_name(tu.sd(n).get('q')) in STR_SHRINK:
+            s, obj, args = tu.call_parts(n)
+            if x.objkey(obj) == tkey:
+                shrinks.append((n, (b.id, i), args))
+    # find form
+    for n, pos, args in shrinks:
+        real = [a for a in args if a.get('kind') != 'CXXDefaultArgExpr']
+        if last_name(tu.sd(n).get('q')) in ('resize', 'erase') and len(real) == 1:
+            p = x.poly_at(real[0], pos)
+            for a in p.atoms(deep=False):
+                if isinstance(a, tuple) and a[0] == 'var' and (p - Poly.atom(a)).as_int() == 1:
+                    init = x.single_init(a[1])
+                    e = x.peel(init) if init is not None else None
+                    if e is not None and e.get('kind') == 'CXXMemberCallExpr' and last_name(tu.sd(e).get('q')) == 'find_last_not_of':
+                        s2, o2, a2 = tu.call_parts(e)
+                        r2 = [y for y in a2 if y.get('kind') != 'CXXDefaultArgExpr']
+                        if x.objkey(o2) == tkey and len(r2) == 1 and x.poly_at(r2[0], None).as_int() in (47, 92) and \
+                                x.g.postdominates(pos, x.pos_of(e)):
+                            return (True, 'resize(find_last_not_of(separator) + 1)')
+    # loop form
+    heads = loops_of(x)
+    for h in heads:
+        body = CountLoop._body_blocks(_Hdr(x, h)) | {h}
+        test = None
+        for bid in body:
+            b = g.blocks[bid]
+            if b.cond is None:
+                continue
+            c = tu.strip(deciding_cond(tu, b, g), casts=True)
+            if c is None or c.get('kind') != 'BinaryOperator' or c.get('opcode') != '==':
+                continue
+            l, r = (tu.strip(y, casts=True) for y in tu.kids(c)[:2])
+            for el, cs in ((l, r), (r, l)):
+                if x.poly_at(cs, None).as_int() not in (47, 92) or el is None:
+                    continue
+                if el.get('kind') == 'CXXMemberCallExpr' and last_name(tu.sd(el).get('q')) == 'back':
+                    if x.objkey(tu.call_parts(el)[1]) == tkey:
+                        test = (b, c)
+                if el.get('kind') in ('CXXOperatorCallExpr', 'CXXMemberCallExpr') and last_name(tu.sd(el).get('q')) in ('operator[]', 'at'):
+                    s3, o3, a3 = tu.call_parts(el)
+                    if x.objkey(o3) == tkey and a3 and x.poly_at(a3[0], x.pos_of(el)) == SIZE - 1:
+                        test = (b, c)
+        if test is None:
+            continue
+        b, c = test
+        stay = b.succ[0]
+        for n, pos, args in shrinks:
+            if pos[0] not in body:
+                continue
+            nm = last_name(tu.sd(n).get('q'))
+            real = [a for a in args if a.get('kind') != 'CXXDefaultArgExpr']
+            one = nm == 'pop_back' or (nm in ('resize', 'erase') and len(real) == 1 and x.poly_at(real[0], pos) == SIZE - 1)
+            # reached exactly when the last character is a separator, and the loop then tests again
+            if one and pos[0] in _reach_blocks(g, stay, stop=h) and h in _reach_blocks(g, pos[0]):
+                return (True, 'while (last character is a separator) drop it')
+    return (False, bool(shrinks))
+
+
+def field_writes(tu, f, fq):
+    """[(kind, node, target key, detail)] for the non-const uses of the member fq in f
+       kind: assign | append | method:<name> | elem-write | elem-iterate | delegate | read"""
+    x = FnX(tu, f)
+    out = []
+    body = tu.body(f)
+    if body is None:
+        return x, out
+    for n in tu.walk(body):
+        if n.get('kind') != 'MemberExpr' or tu.sd(n).get('q') != fq or tu.sd(n).get('k') != 'member':
+            continue
+        if (tu.sd(n).get('ct') or '').startswith('const '):
+            continue
+        ks = tu.kids(n)
+        base = tu.strip(ks[0], casts=True) if ks else None
+        if base is None or tu.is_this(base):
+            tkey = ('field', ('this',), n.get('name'))
+        elif base.get('kind') == 'DeclRefExpr':
+            rd = base.get('referencedDecl', {})
+            tkey = ('field', ('var', rd.get('id'), rd.get('name')), n.get('name'))
+        else:
+            tkey = ('field', ('expr', base.get('id')), n.get('name'))
+        cur, p = n, tu.par(n)
+        const = False
+        while p is not None and p.get('kind') in ('ImplicitCastExpr', 'ParenExpr'):
+            if p.get('kind') == 'ImplicitCastExpr' and (p.get('castKind') == 'LValueToRValue' or
+                                                      (p.get('castKind') == 'NoOp' and (tu.sd(p).get('ct') or '').startswith('const '))):
+                const = True
+            cur, p = p, tu.par(p)
+        if const or p is None:
+            continue
+        pk = p.get('kind')
+        q = tu.sd(p).get('q') or ''
+        if pk == 'CXXOperatorCallExpr' and q.startswith('std::basic_string<') and tu.kids(p)[1] is cur:
+            nm = last_name(q)
+            if nm == 'operator=':
+                out.append(('assign', p, tkey, tu.kids(p)[2]))
+            elif nm == 'operator+=':
+                out.append(('append', p, tkey, tu.kids(p)[2]))
+            elif nm == 'operator[]':
+                gp = tu.par(p)
+                while gp is not None and gp.get('kind') in ('ParenExpr',):
+                    gp = tu.par(gp)
+                if gp is not None and gp.get('kind') in ('BinaryOperator', 'CompoundAssignOperator') and \
+                        gp.get('opcode', '').endswith('=') and gp.get('opcode') not in ('==', '!=', '<=', '>=') and \
+                        tu.strip(tu.kids(gp)[0]) is p:
+                    out.append(('elem-write', gp, tkey, tu.kids(gp)[1]))
+            else:
+                out.append(('method:' + nm, p, tkey, None))
+        elif pk == 'MemberExpr':
+            call = tu.par(p)
+            nm = p.get('name')
+            if nm in STR_WRITE:
+                if nm == 'push_back' or nm == 'append':
+                    a = tu.kids(call)[1:] if call is not None else []
+                    out.append(('append', call, tkey, a[0] if a else None))
+                else:
+                    out.append(('method:' + nm, call, tkey, None))
+            elif nm in ('begin', 'end'):
+                out.append(('elem-iterate', call, tkey, None))
+        elif pk == 'VarDecl' and (p.get('name') or '').startswith('__range'):
+            out.append(('elem-iterate', p, tkey, None))
+        elif pk == 'CallExpr':
+            args = tu.kids(p)[1:]
+            idx = [i for i, a in enumerate(args) if a is cur]
+            out.append(('delegate', p, tkey, (tu.callee_fn(p), idx[0] if idx else None)))
+        elif pk == 'UnaryOperator' and p.get('opcode') == '&':
+            out.append(('method:address-of', p, tkey, None))
+    return x, out
+
+
+def check_normal_form(ctx, tu):
+    R = 'R-C18-11'
+    ctx.describe(R, 'FileName normal form: every function that writes the private string either is a constructor / helper that strips all '
+                    'trailing separators after storing its input, or only copies the string of another FileName; joining with a '
+                    'separator must go through the normalising constructor')
+    fq = FNAME + '::filename'
+    n = 0
+    for f in sorted(tu.functions.values(), key=lambda f: f['l']):
+        if f['dep'] or f.get('implicit') or f.get('defaulted') or tu.cfg(f) is None or not tu.fn_file(f).endswith(('FileName.cpp', 'FileName.h')):
+            continue
+        x, ws = field_writes(tu, f, fq)
+        # member initialiser of the string in a constructor
+        init_from_param = None
+        if f.get('ctor') and f.get('rec') == FNAME:
+            for b in x.g.blocks.values():
+                for e in b.el:
+                    if e[0] == 'I' and e[3] == 'filename' and e[4]:
+                        ie = tu.node(e[1])
+                        for y in tu.walk(ie) if ie is not None else ():
+                            if y.get('kind') == 'DeclRefExpr' and y.get('referencedDecl', {}).get('id') in x.params:
+                                init_from_param = y
+        if not ws and init_from_param is None:
+            continue
+        n += 1
+        file, fname = tu.fn_file(f), fn_name(f)
+        inst = '%s %s' % (fname, f['fty'])
+        key = '%s|%s|%s|' % (R, file, fname)
+        targets = sorted({w[2] for w in ws}, key=repr) or [('field', ('this',), 'filename')]
+        for tkey in targets:
+            tw = [w for w in ws if w[2] == tkey]
+            loc = tu.loc(tw[0][1]) if tw else tu.fn_loc(f)
+            tname = 'filename' if tkey[1] == ('this',) else '%s.filename' % (tkey[1][2] if len(tkey[1]) > 2 else '?')
+            # does this function (or a helper it hands the string to) strip trailing separators?
+            strip = has_strip(tu, f, tkey)
+            via = None
+            if not strip[0]:
+                for w in tw:
+                    if w[0] == 'delegate' and w[3][0] is not None and w[3][1] is not None:
+                        hf, ai = w[3]
+                        ps = hf.get('params', [])
+                        if ai < len(ps):
+                            hs = has_strip(tu, hf, ('var', ps[ai]['id'], ps[ai]['name']))
+                            if hs[0]:
+                                strip = hs
+                                via = hf
+            # classify the content written
+            raw = init_from_param is not None and tkey[1] == ('this',)
+            sep_write = None
+            other = []
+            copies = 0
+            after_sep = []
+            for w in tw:
+                kind, node, _, det = w
+                if kind in ('assign', 'append'):
+                    e = tu.strip(det, casts=True) if det is not None else None
+                    c = x.poly_at(e, None).as_int() if e is not None else None
+                    is_fn_field = e is not None and e.get('kind') == 'MemberExpr' and tu.sd(e).get('q') == fq
+                    has_sep_operand = e is not None and any(
+                        y.get('kind') in ('DeclRefExpr', 'CharacterLiteral', 'ImplicitCastExpr') and tu.sd(y).get('cv') in ('47', '92')
+                        for y in tu.walk(e)) and not is_fn_field
+                    if c in (47, 92) or (has_sep_operand and e.get('kind') != 'DeclRefExpr'):
+                        sep_write = w
+                        after_sep = []
+                    elif is_fn_field:
+                        copies += 1
+                        if sep_write is not None:
+                            after_sep.append(w)
+                    elif e is not None and x.var_of(e)[0] in x.params and 'FileName' not in (x.vars[x.var_of(e)[0]]['ct'] or ''):
+                        raw = True
+                    elif e is not None and e.get('kind') == 'StringLiteral' and e.get('value') == '""':
+                        copies += 1
+                    else:
+                        other.append(w)
+                elif kind in ('elem-write', 'elem-iterate', 'delegate', 'method:reserve'):
+                    pass
+                elif kind.startswith('method:') and kind[7:] in STR_SHRINK | {'clear', 'reserve'}:
+                    pass
+                else:
+                    other.append(w)
+            tinst = '%s: writes `%s`' % (inst, tname)
+            if strip[0]:
+                ctx.ok(R, tinst, 'trailing separators are stripped%s: %s' % ((' by ' + fn_name(via)) if via else '', strip[1]), loc)
+            elif sep_write is not None:
+                ctx.violation(R, tinst, '`%s` puts a path separator at the end of `%s` and %s, without going through the normalising '
+                              'constructor: if the right-hand part is empty (FileName("a") + "") the result ends in a separator, so '
+                              'base()/name()/ext() of the result are empty and a further join doubles the separator'
+                              % (tu.show(sep_write[1]), tname,
+                                 'then appends only strings that may be empty' if after_sep else 'nothing that is known to be non-empty follows'),
+                              tu.loc(sep_write[1]), key=key + 'unnormalised-join')
+            elif raw and not strip[1]:
+                ctx.violation(R, tinst, 'the caller\'s string is stored in `%s` but trailing separators are never removed: '
+                              'FileName("a/") keeps its separator, base() is empty' % tname, loc, key=key + 'no-strip')
+            elif raw or other:
+                ctx.undecided(R, tinst, 'cannot see that `%s` is left without a trailing separator (%s)' % (
+                    tname, ', '.join(sorted({w[0] for w in (other or tw)})) or 'initialiser'), loc)
+            else:
+                ctx.ok(R, tinst, 'only copies the string of another FileName / the empty string', loc, nontrivial=False)
     return n
 
 
@@ -4468,9 +5102,40 @@ def run_on(ctx, tu_drv, tu_url, tu_fn, tu_common, tu_w):
     ctx.floor('R-C18-1', n1, 4, 'ext, dropExt, name, setExt search the last dot')
     ctx.floor('R-C18-8', n8, 12, 'return statements of path, base, ext, dropExt, name, setExt x reaching states: 18 on the pinned '
                                  'tree; PseudoURL constructor: 2 delimiters')
-    n4 = check_url_lookup(ctx, tu_url)
+    sch = url_store_scheme(tu_url)
+    n4 = check_url_lookup(ctx, tu_url, sch)
     ctx.floor('R-C18-4', n4, 2, 'PseudoURL::getValue, PseudoURL::hasParam')
-    n9 = check_param_order(ctx, tu_url, tu_w)
+    # ---- R-C18-12: purity
+    R12 = 'R-C18-12'
+    ctx.describe(R12, 'the helpers are pure functions of their arguments: no function reachable from them writes an object with '
+                      'static storage duration (function-local static, namespace scope); const tables are fine')
+    n12 = 0
+    for which, tu in (('drv', tu_drv), ('url', tu_url), ('fn', tu_fn), ('common', tu_common)):
+        roots = [f for q in ANCHORS[which] for f in tu.fns(q=q) if not f['dep'] and tu.body(f) is not None]
+        fns, verdicts = check_pure(ctx, tu, roots)
+        n12 += len(roots)
+        bad = False
+        for verdict, d, f0, n0, text in verdicts:
+            inst = '%s: `%s`' % (fn_name(f0), d.get('name'))
+            if verdict == 'violation':
+                bad = True
+                ctx.violation(R12, inst, text, tu.loc(n0), key='%s|%s|%s|static-%s' % (R12, tu.fn_file(f0), fn_name(f0), d.get('name')))
+            elif verdict == 'undecided':
+                bad = True
+                ctx.undecided(R12, inst, text, tu.loc(n0))
+            else:
+                ctx.ok(R12, inst, text, tu.loc(n0))
+        if not bad:
+            ctx.ok(R12, '%s: %d anchors, %d reachable function bodies' % (tu.unit, len(roots), len(fns)),
+                   'no mutable object with static storage duration is written', tu.unit)
+    ctx.floor(R12, n12, 15, 'anchor functions of the four units')
+    wroots = [f for f in tu_w.fns(q='rkverif::c18w::prettyShared') if not f['dep']]
+    wv = [(v, d.get('name')) for v, d, f0, n0, t in check_pure(ctx, tu_w, wroots)[1]]
+    if sorted(wv) != [('violation', 'shared')]:     # the const table `unit` is not even a candidate
+        ctx.broken('R-C18-12: the positive example in witness/c18_param_order.cpp is not classified as expected (%s)' % wv)
+    n11 = check_normal_form(ctx, tu_fn)
+    ctx.floor('R-C18-11', n11, 2, 'the two normalising constructors of FileName')
+    n9 = check_param_order(ctx, tu_url, tu_w, sch)
     ctx.floor('R-C18-9', n9, 4, 'accesses to PseudoURL::params (2 appends, 2 scans) + the constructor loop')
     ctx.describe('R-C18-3', 'SI ladder: each rung of prettyDouble/prettyNumber has threshold == divisor == value of its suffix '
                             '(sub-unit rungs: threshold == 1000 x value), rungs form a gap-free ladder in steps of 10^3')
